@@ -7,7 +7,10 @@
 #   3  both files written, WITH HOLES: for every function F that could not be translated (Rust syntax outside the
 #      translator's subset, or F calls a generated function that is itself a hole, or a convention guard on an
 #      accessor of F's source file failed -- then every function of that source file is a hole -- or a guard GROUP on
-#      a src/multi_array helper that F relies on failed -- then exactly the functions naming that group) the file contains
+#      a src/multi_array helper that F relies on failed -- then exactly the functions naming that group; the same holds
+#      for the comparison targets of property C20: the `default_*` / `type Epsilon` text pins of BOpinion's approximate
+#      comparisons, and the markers eq_<Type> whose guard "`#[derive(.. PartialEq ..)]` still there, no hand-written impl" /
+#      "`fn eq` is `self.inner == other.inner`" failed) the file contains
 #      the comment `-- UNTRANSLATABLE <file> fn <F>: <reason>` and NO definition of F, so exactly the tie theorem
 #      gen_<F>_eq (and the ties whose proofs rewrite with it) fails in `lake build` with an unknown identifier;
 #      all other functions are generated and tied as usual.  The generated text is also elaborated once with
